@@ -36,13 +36,15 @@ CORPUS = [
 
 
 def judge(ctx, srcs, label):
+    """srcs: main texts, or (main, mods, singletons) triples (see progstream.run_all)."""
     res = progstream.run_all(srcs, with_model_vm=True, asm=True)
     n_bad_unsupported = 0
-    for src, r in zip(srcs, res):
+    for case, r in zip(srcs, res):
+        src, rec = progstream.source_text(case), progstream.source_record(case)
         if r.get("crashed") or not r["A"].startswith("ACCEPT"):
             if r.get("crashed") or r["A"].startswith("PANIC"):
                 ctx.count(case_key=src, nontrivial=True)
-                ctx.violation({"kind": "prog", "main": src, "go": r["A"][:400]},
+                ctx.violation({"kind": "prog", **rec, "go": r["A"][:400]},
                               f"{label}: the toolchain crashed on an accepted-looking program: {r['A'][:120]}")
             else:
                 ctx.coverage["rejected_by_analyzer"] = ctx.coverage.get("rejected_by_analyzer", 0) + 1
@@ -69,22 +71,22 @@ def judge(ctx, srcs, label):
         ctx.sample({"main": src[:400], "vm": vm["raw"][:200], "spec": spec["raw"][:200]}, limit=4)
         if vm["cls"] == "TERM" and spec["cls"] != "TERM":
             # the harness's own wall-clock guard fired: re-run alone with a generous limit before judging
-            vm = progstream.run_all([src], backends=("vm",), with_spec=False, timeout_ms=60000)[0].get("VM", vm)
+            vm = progstream.run_all([case], backends=("vm",), with_spec=False, timeout_ms=60000)[0].get("VM", vm)
         if vm["cls"] in ("PANIC", "CRASH", "HANG", "INTERRUPT", "COMPILE-ERROR", "MISSING"):
-            ctx.violation({"kind": "prog", "main": src, "vm": vm.get("raw", "")[:400], "spec": spec["raw"][:400]},
+            ctx.violation({"kind": "prog", **rec, "vm": vm.get("raw", "")[:400], "spec": spec["raw"][:400]},
                           f"{label}: VM outcome {vm['cls']} ({vm.get('what', '')[:80]}) where the source semantics give {spec['cls']}")
             continue
         if not progstream.same_outcome(vm, spec):
-            ctx.violation({"kind": "prog", "main": src, "vm": vm["raw"][:600], "spec": spec["raw"][:600]},
+            ctx.violation({"kind": "prog", **rec, "vm": vm["raw"][:600], "spec": spec["raw"][:600]},
                           f"{label}: compiled execution differs from the source semantics "
                           f"(vm: {vm['cls']} {vm.get('kind', '')} out={vm.get('out', '')[-60:]!r}; spec: {spec['cls']} {spec.get('kind', '')} out={spec.get('out', '')[-60:]!r})")
             continue
         if vm.get("trig", "") != spec.get("trig", ""):
-            ctx.violation({"kind": "prog", "main": src, "vm": vm["raw"][:600], "spec": spec["raw"][:600]},
+            ctx.violation({"kind": "prog", **rec, "vm": vm["raw"][:600], "spec": spec["raw"][:600]},
                           f"{label}: trigger registrations differ")
             continue
         if vm["cls"] == "OK" and (vm.get("stack"), vm.get("mp"), vm.get("handlers")) != ("0", "0", "0"):
-            ctx.violation({"kind": "prog", "main": src, "vm": vm["raw"][:600]},
+            ctx.violation({"kind": "prog", **rec, "vm": vm["raw"][:600]},
                           f"{label}: the core is not clean after normal completion: stack={vm.get('stack')} mp={vm.get('mp')} handlers={vm.get('handlers')}")
     return n_bad_unsupported
 
@@ -108,6 +110,14 @@ def run(ctx):
         for i in range(0, len(fsrcs), 1500):
             judge(ctx, fsrcs[i:i + 1500], f"C01 family {fam}")
         ctx.coverage[f"family_{fam}"] = len(fsrcs)
+    # singletons: programs together with what the host provides for them
+    sing = families.singleton_cases()
+    before = ctx.evaluations
+    judge(ctx, sing, "C01 family singletons")
+    ctx.coverage["family_singletons"] = len(sing)
+    if ctx.evaluations - before < len(sing):
+        ctx.broken.append(f"singleton family: only {ctx.evaluations - before} of {len(sing)} programs were accepted and inside the model")
+    ctx.coverage["family_singletons_host_provided"] = sum(1 for c in sing if c[2])
     n = 1200 if ctx.tier == "quick" else 20000
     srcs, feats = [], {}
     for _ in range(n):
@@ -124,7 +134,8 @@ def run(ctx):
     ctx.coverage["rule"] = ("typed random programs (functions, globals, lets, assignments incl. compound/index/field, "
                             "lists/objects/options/ranges, if/match/block values, while/loop/for, break/continue/return, "
                             "try/throw, boundary integers) run on the real compiler+VM and on the Lean specification "
-                            "semantics; non-trivial = distinct program producing output or a fatal outcome")
+                            "semantics; singletons with and without host-provided values (the same values handed to the real "
+                            "executors' LoadSingleton and to the models); non-trivial = distinct program producing output or a fatal outcome")
     ctx.coverage["traces_validated_against_impl"] = ctx.evaluations
     if ctx.evaluations < 0.7 * n:
         ctx.broken.append(f"generator drift: only {ctx.evaluations} of {n} generated programs were accepted and inside the model")
@@ -142,8 +153,8 @@ def replay(ctx, rep):
     if rep.get("kind") != "prog":
         print("replay names a broken obligation, not an input:", rep)
         return 1
-    r = progstream.run_all([rep["main"]])[0]
-    print(rep["main"])
+    r = progstream.run_all([progstream.source_of_record(rep)])[0]
+    print(progstream.source_text(progstream.source_of_record(rep)))
     for k in ("A", "VM", "TREE", "SPEC"):
         v = r.get(k)
         print(f"{k}: {v if isinstance(v, str) else (v or {}).get('raw')}")
